@@ -57,6 +57,18 @@ claim("C08", "exploration",
       "public API traversal only; LSC-specific containers are not walked",
       "runtime monitoring: structural invariant walker at quiescent points after each parse (sanitizer build)")
 
+claim("C19", "exploration",
+      "algebraic laws of clone_deeper/subst/equal/get_size evaluated on every sub-expression of generated "
+      "expressions, queries and model labels inside the ASan build, with single-node perturbations built through "
+      "the public factories",
+      "laws are checked on parsed trees only; hook H2 exposes the stored child count",
+      "runtime monitoring: law checker over live expression trees (assertions on hooked state, sanitizer build)")
+claim("C20", "exploration",
+      "accepted generated models written with write_XML_file and read back with Python's ElementTree; graph, flags "
+      "and label texts compared with the Document dumped in the same process",
+      "ElementTree as independent XML reader; label texts compared with the library's own str() of the document",
+      "runtime monitoring: output monitor comparing the written file with the recorded Document (independent reader)")
+
 
 def main():
     props = [json.loads(l) for l in open(os.path.join(VERIF, "properties.jsonl"))]
